@@ -8,5 +8,14 @@ for p in $(python3 -c "import json;print(' '.join(c['property_id'] for c in json
   out=$(./check $p --tier ${1:-quick} 2>&1); r=$?
   echo "$p rc=$r $(echo "$out" | tail -1 | cut -c1-160)"
   [ $r -ne 0 ] && { rc=1; echo "$out" | head -20; }
+  # formula rules have a soft floor (never alarm on an unreadable shape): on /repo HEAD they must all be evaluated
+  python3 - "$p" <<'PY' || rc=1
+import json, sys
+e = json.load(open('/verif/evidence/%s.json' % sys.argv[1]))
+bad = {k: v for k, v in e['coverage'].get('formula_rules_evaluated', {}).items() if v['evaluated'] < v['on_reference_tree']}
+if bad:
+    print('SOFT-FLOOR %s: formula rules not fully evaluated on this tree: %s' % (sys.argv[1], bad))
+    sys.exit(1)
+PY
 done
 exit $rc
